@@ -180,6 +180,179 @@ meta("C03",
      level_note="uriParseIPv6address2 and the OnExit helpers are assumed contracts in this version; helper groups are bounded")
 
 
+meta("C08",
+     explanation=("uriNormalizeSyntaxExMm and uriNormalizeSyntaxMaskRequiredEx are verified through the real uriNormalizeSyntaxEngine with "
+                  "ALL real callees inlined (lower-casing, percent-encoding repair in place and copying, dot-segment removal, "
+                  "make-owner, leak prevention, FreeUriMembers), for a SYMBOLIC mask (all 64), owned and borrowed objects, split by "
+                  "component group to keep each obligation within memory (scheme+query+fragment / authority / path / all components "
+                  "with 1-character texts). Oracle: the RFC 3986 6.2.2 normal form per component (spec/spec_normalize.h: scheme and "
+                  "host lower case, hex digits of percent-encodings upper case, percent-encoded unreserved characters decoded; path: "
+                  "per-segment repair then segment-level dot removal keeping only the leading '..' run of a relative-path reference). "
+                  "Postconditions: selected components equal their normal form, all others keep their text; host kind, port, "
+                  "address bytes unchanged; mask-required: a clear bit implies the component already is normal (hence normalizing "
+                  "with the reported mask equals full normalization, and a zero mask means normal form); idempotence follows from "
+                  "'normal form is a fixed point of the spec' (derived). Inputs a relative-path reference whose dot-free path would "
+                  "be empty or start with an empty segment are exempt from the content comparison (C09 covers them)."),
+     assumptions=["inputs satisfy the invariant of C07, delimiter-level legality, and every '%' starts a well-formed triplet (what the parser guarantees)",
+                  "memcpy: element-wise copy stub", BOUNDED_NOTE],
+     level_text=("harness-asserted contract of uriNormalizeSyntaxExMm / MaskRequiredEx against the RFC 3986 6.2.2 normal form, symbolic mask, "
+                 "real callees verified in place, split by component group; bounded in segments (<=2) and component length (<=3)"),
+     level_note="bounded; one known finding (host percent-encoding lower-cased) excluded by input region")
+
+meta("C09",
+     explanation=("Decided by the uriNormalizeSyntaxExMm obligations (shared with C08): for every input and every mask the presence of scheme "
+                  "and authority is preserved; for a reference with neither, an absolute path stays absolute and a relative path stays "
+                  "relative and non-empty (as text: not empty, not starting with '/'). The commutation statement "
+                  "'normalize(resolve(normalize(R),B)) == normalize(resolve(R,B))' is NOT decided in this version: it needs the "
+                  "spec-level commutation lemma of DESIGN C09, which has not been machine-checked; it is listed as an unchecked "
+                  "assumption and the claim is restricted to the preservation clauses."),
+     assumptions=["commutation of normalization with resolution: not decided (spec-level lemma not machine-checked)", BOUNDED_NOTE],
+     level_text="preservation clauses of C09 as postconditions of the uriNormalizeSyntaxExMm obligations (bounded); commutation not decided",
+     level_note="partial: only the 'never adds/removes scheme or authority, never changes the path kind' half is decided")
+
+meta("C07",
+     explanation=("History quantifier => invariant Inv(u) := well formed (list terminates, tail is the last node, host never with the "
+                  "absolute-path flag, ranges both NULL or ordered) and reparse-safe (no host-less path starting with '//', no "
+                  "unrooted path whose first segment is empty, no scheme-less authority-less relative path whose first segment "
+                  "contains ':'). Preservation is a postcondition of every whole-operation obligation, each REQUIRING Inv of its "
+                  "inputs: uriAddBaseUriExMm, uriRemoveBaseUriMm, uriNormalizeSyntaxExMm (symbolic mask), uriMakeOwnerMm; "
+                  "establishment by the parser: structure by the PushPathSegment/FixEmptyTrailSegment obligations and the parser "
+                  "contracts. By induction every reachable object satisfies Inv. The last step - Inv(u) implies that the RFC "
+                  "decomposition of the recomposed text returns the same components (lemma L5 of DESIGN) - is argued in DESIGN but NOT "
+                  "machine-checked; it is listed as an unchecked assumption."),
+     assumptions=["lemma L5 (Inv(u) => decompose(recompose(u)) == view(u)): not machine-checked",
+                  "reparse-safety of a freshly parsed object (part of L2/L3): not machine-checked", BOUNDED_NOTE],
+     level_text="preservation of the structural/reparse-safety invariant by every producing operation (bounded whole-operation obligations); L5 unchecked",
+     level_note="invariant preservation is decided per operation within bounds; the final recompose/decompose lemma is an assumption")
+
+meta("C12",
+     explanation=("uriMakeOwnerMm (real engine, range owner, leak prevention) and uriNormalizeSyntaxExMm with a non-zero mask on a borrowed URI: "
+                  "afterwards the owner flag is set, every non-empty range is a block that is not the source text object (object "
+                  "identity, checked with __CPROVER_same_object), IPvFuture text is duplicated once and shared, the content (view) "
+                  "equals what it was (resp. its normal form), and after overwriting every cell of the source text with arbitrary "
+                  "values the view is still the same. No operation writes caller text: in every whole-operation obligation the "
+                  "source pool is compared cell by cell (ghost index) before and after; read-only URI arguments (bases, sources, "
+                  "operands of comparison, recomposition, mask query) are compared structure, node (ghost-indexed) and address "
+                  "bytes before and after."),
+     assumptions=[BOUNDED_NOTE, "memcpy: element-wise copy stub"],
+     level_text="ownership/independence postconditions and read-only frames in the whole-operation obligations (bounded)",
+     level_note="bounded in list and text length")
+
+meta("C13",
+     explanation=("[S] the call graph of the staged library shows malloc/calloc/realloc/reallocarray/free called only by the five "
+                  "uriDefault* functions. Every whole-operation obligation (parse helpers, resolve, create reference, normalize, make "
+                  "owner, dissect/append query) runs with a recording manager: blocks handed out and returned are counted, the real "
+                  "malloc/free behind it make double free, free of a pointer never handed out or of an interior pointer and "
+                  "use-after-free failed memory-safety obligations; postconditions: after the matching release call the ledger is "
+                  "back to its entry value; FreeUriMembers twice is harmless; realloc/reallocarray are never used; an incomplete "
+                  "manager or NULL argument is rejected before anything is allocated; uriMemoryManagerIsComplete under an unbounded "
+                  "function contract. The NULL-manager => default-manager branch is the URI_CHECK_MEMORY_MANAGER macro, covered "
+                  "syntactically by the call-graph fact and not exercised with the C library allocator."),
+     assumptions=[MM_ASSUME, BOUNDED_NOTE, "default (libc) manager path not executed symbolically"],
+     level_text="ledger postconditions in every whole-operation obligation (bounded) + static call-graph fact + entry-check contracts",
+     level_note="bounded in list and text length; default-manager path only by the static fact")
+
+meta("C14",
+     explanation=("The recording manager refuses request k for every k independently (bit k of a nondeterministic 64-bit mask), so one "
+                  "obligation covers every position and both fail-once and fail-from-k-on. Per operation (resolve, create reference, "
+                  "normalize with a symbolic mask, make owner, dissect/append query, the parser's segment/host helpers and error "
+                  "exits): a refused request implies the out-of-memory code; after the caller's ordinary cleanup "
+                  "(uriFreeUriMembersMm on the output / in-place URI only) the ledger is back to its entry value; CBMC's own "
+                  "double-free / invalid-free / use-after-free checks are on; read-only inputs unchanged. The parser's rule functions "
+                  "propagate failures by contract (result NULL => MALLOC or SYNTAX with nothing left allocated)."),
+     assumptions=[MM_ASSUME, BOUNDED_NOTE, "uriComposeQueryMallocExMm: not yet under an obligation"],
+     level_text="fault injection at every allocation request inside the whole-operation obligations (all fault sequences, bounded inputs)",
+     level_note="one known finding (normalize borrowed path leak) excluded by input region")
+
+meta("C17",
+     explanation=("Modular: (1) uriDissectQueryMallocExMm with uriAppendQueryItem replaced by its contract stub: the effective calls are "
+                  "exactly the pieces between '&', split at their first '=', in order, no value iff no '=', empty key without value "
+                  "dropped, options passed through, count, list length, failure => MALLOC with everything released; (2) the real "
+                  "uriAppendQueryItem (discharging that stub): exact-size unescaped copies, NULL vs empty value, complete roll-back; "
+                  "(3) uriComposeQueryEx / CharsRequiredEx on fixed-size inputs: the chars-required figure is sufficient, "
+                  "written == length+1, nothing written outside a destination of exactly maxChars characters, only characters "
+                  "legal in a query; (4) escaping/unescaping content and round trip from C16. The INT_MAX guards of "
+                  "uriComposeQueryEngine for very long strings are NOT yet under an obligation."),
+     assumptions=[BOUNDED_NOTE, "INT_MAX overflow guards of uriComposeQueryEngine / uriComposeQueryMallocExMm: not decided in this version"],
+     level_text="bounded modular obligations for dissect (callee by contract stub), append item, compose sizes/legal characters",
+     level_note="bounded; overflow-guard clause not decided")
+
+meta("C18",
+     explanation=("uriUnixFilenameToUriString / uriWindowsFilenameToUriString and back, through the real uriFilenameToUriString / "
+                  "uriUriStringToFilename with the real escape/unescape functions, on every filename within the bound over code points "
+                  "1..255 (Windows: the stated domain): the URI string fits a block of EXACTLY the documented 7+3n+1 / 8+3n+1 / 3n+1 "
+                  "characters, has the file:///x, file:///C:/x, file://server/share resp. relative shape with path characters only, "
+                  "converting back into a block of EXACTLY the documented len+1-5 / len+1 characters returns the original name; the "
+                  "short forms file:/x and file:c:/x are accepted."),
+     assumptions=[BOUNDED_NOTE, "validity of the URI string is checked as 'path characters and complete triplets behind the fixed prefix', not by running the parser"],
+     level_text="bounded round-trip and buffer-size obligations with exact-size blocks",
+     level_note="bounded in filename length (3 quick / 5 thorough)")
+
+meta("C19",
+     explanation=("Both variants are compiled from the same text and are verified against the SAME contract/harness text (written over "
+                  "URI_CHAR): every obligation of the other properties is instantiated for char and for wchar_t. Where the contract "
+                  "is functional (views, ghost-indexed content, exact sizes in characters, exact-size destination blocks) two "
+                  "functions satisfying it agree on every input representable in both types. The W pass uses a staged copy in "
+                  "which wide string literals are rewritten to array compound literals (CBMC 6.11 mis-sizes wide literals). The memcpy "
+                  "stub rejects sizes that are not a whole number of characters (n instead of n*sizeof)."),
+     assumptions=["level = level of the underlying obligations (see the other evidence files)", "W-pass staging rule for wide string literals (vlib/stage.py)"],
+     level_text="every obligation instantiated for both character types against the same contract text",
+     level_note="bounded/unbounded exactly as the underlying obligations")
+
+meta("C20",
+     explanation=("Schedules cannot be explored by sequential contracts; what is decided is the standard sufficient condition. (a) frames: "
+                  "every whole-operation obligation shows that a call writes only its output objects and memory it allocated itself "
+                  "- read-only inputs (structures, nodes, text, address bytes) are compared before/after, no allocator traffic where "
+                  "none is expected; DFCC assigns-clause checking for the functions under function contracts. (b) [S] the "
+                  "static-lifetime objects of the staged library are exactly the seven constant ones and no instruction assigns "
+                  "them by name. From (a) and (b) two calls with disjoint outputs write disjoint locations and neither writes what "
+                  "the other reads: no data race, and each result is a function of its inputs only."),
+     assumptions=["the supplied memory manager and the C library functions used are thread-safe", "errno is thread-local on the platform",
+                  "the data-race-freedom argument itself (disjoint writes => no race) is the standard theorem, not machine-checked"],
+     level_text="frame conditions per operation + static fact about static-lifetime objects; interleavings not explored (not expressible)",
+     level_note="sufficient condition only; see DESIGN section 8")
+
+
+meta("C01",
+     explanation=("code == table == RFC. (1) [unbounded, CBMC/DFCC] for each of the 31 rule functions of the parser a DISPATCH contract, "
+                  "generated on every run from the production comments above the function in /repo's current src/UriParse.c, is "
+                  "enforced on the real body: for a symbolic lookahead character (and end of input) the sequence of rule functions "
+                  "called, their position arguments, the returned position and - on rejection - the syntax-error position are exactly "
+                  "those of the LL(1) table (callees replaced by logging interface contracts, self-calls by a body-less twin carrying "
+                  "the same contract; input length symbolic, no unwinding). A dropped case label, a wrong `first + k`, a wrong error "
+                  "position or a swapped callee fails the obligation of exactly that function. (2) [lemma, complete automata "
+                  "construction] the documented table denotes exactly `URI-reference` of the ABNF in doc/rfc3986_grammar_only.txt: "
+                  "minimal DFAs compared (182 live + 1 dead state), all recursion is tail recursion, the table is LL(1). (3) entry points: "
+                  "whole range consumed or syntax error at the stop position inside the range; NULL arguments. (4) IP literals: "
+                  "uriParseIpFourAddress == RFC IPv4address for all lengths; uriParseIPv6address2 == RFC IPv6address ']' BOUNDED (literal "
+                  "length, see group); IPv4 classification of hosts against the RFC recogniser. Not decided: that the error position is "
+                  "the FIRST character after which no completion exists (lemma L1c: needs the product of the table parser with the RFC "
+                  "DFA; not machine-checked), and the wide-character out-of-range code points beyond the symbolic URI_CHAR treatment."),
+     assumptions=["lemma L1c (reported position == point where the RFC DFA dies): not machine-checked; the position is proved to be the one the table prescribes and to lie in [first, afterLast]",
+                  "uriParseIPv6address2: interface contract assumed by its caller; language equivalence bounded in literal length",
+                  "memory manager members obey pm_*_contract", BOUNDED_NOTE],
+     trusted=["spec/grammar_tool.py (ABNF reader, subset construction, minimisation) - cross-checked by the 183-state count"],
+     level_text=("generated dispatch contracts on all 31 rule functions (unbounded, DFCC) + automata lemma table == RFC 3986 + entry-point "
+                 "contracts + IPv4 proof; IPv6 scanner bounded"),
+     level_note="IPv6 literal language bounded (8 / 12 characters); error-position minimality lemma unchecked")
+
+meta("C02",
+     explanation=("Decided: (a) which rule function is called at which position for every lookahead (the dispatch contracts of C01) - the "
+                  "component boundaries are the positions handed between rules; (b) host classification: a host is IPv4 exactly when "
+                  "its text is an RFC IPv4address and the four bytes equal the value written (all lengths for the IPv4 parser; host-end "
+                  "helpers on host texts up to 16 characters), IPv6 literals and their 16 bytes against the RFC recogniser (bounded in "
+                  "literal length); (c) segment list construction: uriPushPathSegment appends exactly the given range (placeholder for "
+                  "empty text), list well formed with the tail being the last node; uriFixEmptyTrailSegment drops exactly the lone "
+                  "empty segment of a host-less relative path. NOT decided in this version: the semantic actions that record scheme / "
+                  "user info / host / port / query / fragment begin and end marks inside the rule functions (they are in the frame of "
+                  "the interface contracts but their values are not yet tied to the table), and lemma L2 (table transducer == RFC "
+                  "decomposition)."),
+     assumptions=["mark assignments (SCHEME/USERINFO/HOST/PORT/QUERY/FRAGMENT BEGIN/END, absolutePath) inside rule functions: not yet under a postcondition",
+                  "lemma L2: not machine-checked", BOUNDED_NOTE],
+     level_text="dispatch contracts (rule positions), IPv4/IPv6 values, host classification, segment list helpers; component marks not yet decided",
+     level_note="partial: see evidence.assumptions")
+
+
 def write_evidence(prop, tier, seed, results, obmap, violations, kf_lines, wall, findings, fixed):
     m = META.get(prop, {})
     groups = []
